@@ -10,6 +10,12 @@
 //!   sdijkstra m<r> m<i>        Topology::spanned(m<r>).dijkstra(m<i>)
 //!   filter m<a>,m<b>,…|none    topology().filter_nodes(keep exactly those): nodes, edges, connected, bidirectional
 //!   edgesfor m<i>              topology().edges_for(m<i>)
+//!   fedges <view> <rule>       view.filter_edges(rule), then nodes / edges / connected / bidirectional
+//!   fdijkstra <view> <rule> m<i>   … then dijkstra(m<i>) on the filtered view
+//!   fedgesfor <view> <rule> m<i>   … then edges_for(m<i>) on the filtered view
+//!        <view> = topo | sp:m<r> (Topology::spanned(m<r>))
+//!        <rule> (what the predicate keeps; from/to = module numbers of the edge's two nodes):
+//!               lt (from < to) | gt (from > to) | succ:<n> (to == (from+1) % n) | starts:g1,g5,…|starts:none (start gate listed)
 //! Transcript answers:
 //!   nodes=m0,m1 edges=m0:g1>m1:g4;… conn=<0|1> bidi=<0|1>      (an edge is from-node:start-gate > to-node:end-gate)
 //!   dijkstra … -> m2=m1:g1>m0:g3;…|none                          (sorted by module)
@@ -74,6 +80,38 @@ fn dijkstra_str(rev: &Rev, t: &Topology<(), ()>, src: &str) -> String {
         .collect();
     v.sort();
     list_or("none", v.into_iter().map(|x| x.1).collect(), ";")
+}
+
+enum Rule {
+    Lt,
+    Gt,
+    Succ(u64),
+    Starts(Vec<String>),
+}
+
+fn parse_rule(r: &str) -> Option<Rule> {
+    if r == "lt" {
+        Some(Rule::Lt)
+    } else if r == "gt" {
+        Some(Rule::Gt)
+    } else if let Some(n) = r.strip_prefix("succ:") {
+        n.parse().ok().filter(|n| *n > 0).map(Rule::Succ)
+    } else if let Some(l) = r.strip_prefix("starts:") {
+        Some(Rule::Starts(if l == "none" { vec![] } else { l.split(',').map(|x| x.to_string()).collect() }))
+    } else {
+        None
+    }
+}
+
+fn keeps<N, C>(rule: &Rule, rev: &Rev, e: &Edge<'_, N, C>) -> bool {
+    let from = mod_index(e.from.module().path().as_str());
+    let to = mod_index(e.to.module().path().as_str());
+    match rule {
+        Rule::Lt => from < to,
+        Rule::Gt => from > to,
+        Rule::Succ(n) => to == (from + 1) % n,
+        Rule::Starts(l) => l.contains(&gname(rev, &e.from.gate())),
+    }
 }
 
 fn run_case(header: &str, body: &[String], out: &mut String) {
@@ -152,6 +190,41 @@ fn run_case(header: &str, body: &[String], out: &mut String) {
                         let mut t = sim.globals().topology();
                         t.filter_nodes(|n| keep.contains(&n.module().path().as_str().to_string()));
                         describe(&rev, &t)
+                    })
+                    .unwrap_or_else(|_| "panic".into()),
+                )
+            }
+            ["fedges", view, rule] | ["fdijkstra", view, rule, _] | ["fedgesfor", view, rule, _] => {
+                let Some(rule) = parse_rule(rule) else { continue };
+                let root = match view.strip_prefix("sp:") {
+                    Some(r) => {
+                        if !mods.contains(&r.to_string()) {
+                            continue;
+                        }
+                        Some(r.to_string())
+                    }
+                    None => None,
+                };
+                let arg = tok.get(3).map(|x| x.to_string());
+                if tok[0] == "fdijkstra" && !arg.as_ref().map(|m| mods.contains(m)).unwrap_or(false) {
+                    continue;
+                }
+                let op = tok[0].to_string();
+                Some(
+                    guarded(|| {
+                        let mut t = match &root {
+                            Some(r) => Topology::spanned(sim.get(&r.as_str().into()).expect("module")),
+                            None => sim.globals().topology(),
+                        };
+                        t.filter_edges(|e| keeps(&rule, &rev, &e));
+                        match op.as_str() {
+                            "fedges" => describe(&rev, &t),
+                            "fdijkstra" => dijkstra_str(&rev, &t, arg.as_ref().unwrap()),
+                            _ => {
+                                let v: Vec<String> = t.edges_for(arg.as_ref().unwrap().as_str()).map(|e| edge_str(&rev, &e)).collect();
+                                list_or("none", v, ";")
+                            }
+                        }
                     })
                     .unwrap_or_else(|_| "panic".into()),
                 )
@@ -294,6 +367,26 @@ pub fn gen(seed: u64, count: usize, thorough: bool) -> String {
             }
             if r.chance(1, 4) {
                 writeln!(out, "edgesfor m{m}").unwrap();
+            }
+        }
+        // direction-dependent edge filters: asymmetric views
+        for _ in 0..r.range(2, 4) {
+            let view = if r.chance(3, 5) { "topo".to_string() } else { format!("sp:m{}", r.below(nmods as u64)) };
+            let rule = match r.below(6) {
+                0 => "lt".to_string(),
+                1 => "gt".to_string(),
+                2 => format!("succ:{nmods}"),
+                _ => {
+                    let l: Vec<String> = (0..g).filter(|_| r.chance(1, 2)).map(|x| format!("g{x}")).collect();
+                    format!("starts:{}", if l.is_empty() { "none".to_string() } else { l.join(",") })
+                }
+            };
+            writeln!(out, "fedges {view} {rule}").unwrap();
+            if r.chance(1, 2) {
+                writeln!(out, "fdijkstra {view} {rule} m{}", r.below(nmods as u64)).unwrap();
+            }
+            if r.chance(1, 4) {
+                writeln!(out, "fedgesfor {view} {rule} m{}", r.below(nmods as u64)).unwrap();
             }
         }
         for _ in 0..r.range(1, 3) {
